@@ -251,3 +251,447 @@ Theorem tdea_inverse : forall (Blk : Type) (Enc Dec : list N -> Blk -> Blk),
   (forall k b, Dec k (Enc k b) = b) -> (forall k b, Enc k (Dec k b) = b) ->
   forall k1 k2 k3 b, tdea_decrypt_spec Enc Dec k1 k2 k3 (tdea_encrypt_spec Enc Dec k1 k2 k3 b) = b.
 Proof. intros Blk Enc Dec H1 H2 k1 k2 k3 b. unfold tdea_decrypt_spec, tdea_encrypt_spec. rewrite H1, H2, H1. reflexivity. Qed.
+
+(* ================================================================== the concrete des3.c instance *)
+Lemma testbit_255 : forall n, N.testbit 255 n = (n <? 8)%N.
+Proof.
+  intro n. change 255%N with (N.ones 8). destruct (n <? 8)%N eqn:E.
+  - apply N.ones_spec_low. apply N.ltb_lt. exact E.
+  - apply N.ones_spec_high. apply N.ltb_ge. exact E.
+Qed.
+Lemma testbit_ones32 : forall n, N.testbit 0xFFFFFFFF n = (n <? 32)%N.
+Proof.
+  intro n. change 0xFFFFFFFF%N with (N.ones 32). destruct (n <? 32)%N eqn:E.
+  - apply N.ones_spec_low. apply N.ltb_lt. exact E.
+  - apply N.ones_spec_high. apply N.ltb_ge. exact E.
+Qed.
+
+(* LOAD32H of STORE32H is the value reduced to 32 bits *)
+Lemma ld32be_be32 : forall x,
+  ld32be (byte_of (N.shiftr x 24)) (byte_of (N.shiftr x 16)) (byte_of (N.shiftr x 8)) (byte_of x) = w32 x.
+Proof.
+  intro x. apply N.bits_inj. intro n. unfold ld32be, byte_of, w32.
+  rewrite !N.lor_spec.
+  assert (B : forall a b : bool, a && true = a /\ a && false = false) by (intros [|] ?; split; reflexivity).
+  destruct (N.lt_ge_cases n 8) as [H8|H8].
+  - rewrite !N.shiftl_spec_low by lia. rewrite !N.land_spec, testbit_255, testbit_ones32.
+    replace (n <? 8)%N with true by (symmetry; apply N.ltb_lt; lia).
+    replace (n <? 32)%N with true by (symmetry; apply N.ltb_lt; lia). reflexivity.
+  - destruct (N.lt_ge_cases n 16) as [H16|H16].
+    + rewrite (N.shiftl_spec_low _ 24), (N.shiftl_spec_low _ 16) by lia.
+      rewrite N.shiftl_spec_high' by lia. rewrite !N.land_spec, !testbit_255, testbit_ones32, N.shiftr_spec'.
+      replace (n - 8 + 8)%N with n by lia.
+      replace (n - 8 <? 8)%N with true by (symmetry; apply N.ltb_lt; lia).
+      replace (n <? 8)%N with false by (symmetry; apply N.ltb_ge; lia).
+      replace (n <? 32)%N with true by (symmetry; apply N.ltb_lt; lia).
+      destruct (N.testbit x n); reflexivity.
+    + destruct (N.lt_ge_cases n 24) as [H24|H24].
+      * rewrite (N.shiftl_spec_low _ 24) by lia.
+        rewrite (N.shiftl_spec_high' _ 16), (N.shiftl_spec_high' _ 8) by lia.
+        rewrite !N.land_spec, !testbit_255, testbit_ones32, !N.shiftr_spec'.
+        replace (n - 16 + 16)%N with n by lia. replace (n - 8 + 8)%N with n by lia.
+        replace (n - 16 <? 8)%N with true by (symmetry; apply N.ltb_lt; lia).
+        replace (n - 8 <? 8)%N with false by (symmetry; apply N.ltb_ge; lia).
+        replace (n <? 8)%N with false by (symmetry; apply N.ltb_ge; lia).
+        replace (n <? 32)%N with true by (symmetry; apply N.ltb_lt; lia).
+        destruct (N.testbit x n); reflexivity.
+      * rewrite (N.shiftl_spec_high' _ 24), (N.shiftl_spec_high' _ 16), (N.shiftl_spec_high' _ 8) by lia.
+        rewrite !N.land_spec, !testbit_255, testbit_ones32, !N.shiftr_spec'.
+        replace (n - 24 + 24)%N with n by lia. replace (n - 16 + 16)%N with n by lia. replace (n - 8 + 8)%N with n by lia.
+        replace (n - 16 <? 8)%N with false by (symmetry; apply N.ltb_ge; lia).
+        replace (n - 8 <? 8)%N with false by (symmetry; apply N.ltb_ge; lia).
+        replace (n <? 8)%N with false by (symmetry; apply N.ltb_ge; lia).
+        destruct (N.lt_ge_cases n 32) as [H32|H32].
+        -- replace (n - 24 <? 8)%N with true by (symmetry; apply N.ltb_lt; lia).
+           replace (n <? 32)%N with true by (symmetry; apply N.ltb_lt; lia). destruct (N.testbit x n); reflexivity.
+        -- replace (n - 24 <? 8)%N with false by (symmetry; apply N.ltb_ge; lia).
+           replace (n <? 32)%N with false by (symmetry; apply N.ltb_ge; lia). destruct (N.testbit x n); reflexivity.
+Qed.
+
+Lemma w32_idem : forall x, w32 (w32 x) = w32 x.
+Proof. intro x. unfold w32. rewrite <- N.land_assoc, N.land_diag. reflexivity. Qed.
+
+Lemma load_store_w32 : forall a b, load_block (store_block (w32 a, w32 b)) = (w32 a, w32 b).
+Proof.
+  intros a b. unfold store_block, be32. cbn [fst snd app load_block].
+  rewrite !ld32be_be32, !w32_idem. reflexivity.
+Qed.
+
+(* the code's desfunc hands back two uint32: storing and reloading them changes nothing *)
+Lemma c_desfunc_wf : forall ks w, load_block (store_block (c_desfunc ks w)) = c_desfunc ks w.
+Proof.
+  intros ks [l r]. unfold c_desfunc.
+  repeat match goal with |- context [let '(_, _) := ?x in _] => destruct x end.
+  apply load_store_w32.
+Qed.
+
+(* ================================================================== DES deciphering inverts enciphering *)
+Lemma bperm_length : forall t x, length (bperm t x) = length t.
+Proof. intros. unfold bperm. apply map_length. Qed.
+
+Lemma xorb_lists_length : forall a b, length (xorb_lists a b) = Nat.min (length a) (length b).
+Proof. induction a; destruct b; cbn; try reflexivity. rewrite IHa. reflexivity. Qed.
+Lemma xorb_lists_cancel : forall a b, length a = length b -> xorb_lists (xorb_lists a b) b = a.
+Proof.
+  induction a as [|x a IH]; intros [|y b] H; cbn in *; try discriminate; [reflexivity|].
+  rewrite IH by lia. f_equal. destruct x, y; reflexivity.
+Qed.
+
+Lemma des_f_length : forall r k, length (des_f r k) = 32.
+Proof. intros. unfold des_f. rewrite bperm_length. reflexivity. Qed.
+
+Lemma des_rounds_snoc : forall ks k l r,
+  des_rounds (ks ++ [k]) l r = let '(l1, r1) := des_rounds ks l r in (r1, xorb_lists l1 (des_f r1 k)).
+Proof. induction ks as [|k0 ks IH]; intros; cbn [app des_rounds]; [reflexivity|]. apply IH. Qed.
+
+Lemma des_rounds_length : forall ks l r, length l = 32 -> length r = 32 ->
+  length (fst (des_rounds ks l r)) = 32 /\ length (snd (des_rounds ks l r)) = 32.
+Proof.
+  induction ks as [|k ks IH]; intros l r Hl Hr; cbn [des_rounds]; [split; assumption|].
+  apply IH; [exact Hr|]. rewrite xorb_lists_length, des_f_length, Hl. reflexivity.
+Qed.
+
+(* the Feistel ladder run with the sub-keys reversed, on the swapped halves, undoes itself *)
+Lemma des_rounds_inverse : forall ks l r, length l = 32 -> length r = 32 ->
+  des_rounds (rev ks) (snd (des_rounds ks l r)) (fst (des_rounds ks l r)) = (r, l).
+Proof.
+  induction ks as [|k ks IH]; intros l r Hl Hr; [reflexivity|].
+  cbn [des_rounds rev]. rewrite des_rounds_snoc.
+  rewrite IH; [|exact Hr|rewrite xorb_lists_length, des_f_length, Hl; reflexivity].
+  rewrite xorb_lists_cancel by (rewrite des_f_length; exact Hl). reflexivity.
+Qed.
+
+Lemma list64 : forall (x : list bool), length x = 64 -> exists
+  a0 a1 a2 a3 a4 a5 a6 a7 a8 a9 a10 a11 a12 a13 a14 a15 a16 a17 a18 a19 a20 a21 a22 a23 a24 a25 a26 a27 a28 a29 a30 a31
+  a32 a33 a34 a35 a36 a37 a38 a39 a40 a41 a42 a43 a44 a45 a46 a47 a48 a49 a50 a51 a52 a53 a54 a55 a56 a57 a58 a59 a60 a61 a62 a63,
+  x = [a0;a1;a2;a3;a4;a5;a6;a7;a8;a9;a10;a11;a12;a13;a14;a15;a16;a17;a18;a19;a20;a21;a22;a23;a24;a25;a26;a27;a28;a29;a30;a31;
+       a32;a33;a34;a35;a36;a37;a38;a39;a40;a41;a42;a43;a44;a45;a46;a47;a48;a49;a50;a51;a52;a53;a54;a55;a56;a57;a58;a59;a60;a61;a62;a63].
+Proof.
+  intros x H.
+  do 64 (destruct x as [|? x]; [discriminate H|]). destruct x; [|discriminate H].
+  repeat eexists.
+Qed.
+
+Lemma des_FP_IP : forall x, length x = 64 -> bperm des_FP (bperm des_IP x) = x.
+Proof.
+  intros x H. destruct (list64 x H) as
+   [a0 [a1 [a2 [a3 [a4 [a5 [a6 [a7 [a8 [a9 [a10 [a11 [a12 [a13 [a14 [a15 [a16 [a17 [a18 [a19 [a20 [a21 [a22 [a23 [a24 [a25 [a26 [a27 [a28 [a29 [a30 [a31
+   [a32 [a33 [a34 [a35 [a36 [a37 [a38 [a39 [a40 [a41 [a42 [a43 [a44 [a45 [a46 [a47 [a48 [a49 [a50 [a51 [a52 [a53 [a54 [a55 [a56 [a57 [a58 [a59 [a60 [a61 [a62 [a63 E]]]]]]]]]]]]]]]]]]]]]]]]]]]]]]]]]]]]]]]]]]]]]]]]]]]]]]]]]]]]]]]].
+  subst x. reflexivity.
+Qed.
+Lemma des_IP_FP : forall x, length x = 64 -> bperm des_IP (bperm des_FP x) = x.
+Proof.
+  intros x H. destruct (list64 x H) as
+   [a0 [a1 [a2 [a3 [a4 [a5 [a6 [a7 [a8 [a9 [a10 [a11 [a12 [a13 [a14 [a15 [a16 [a17 [a18 [a19 [a20 [a21 [a22 [a23 [a24 [a25 [a26 [a27 [a28 [a29 [a30 [a31
+   [a32 [a33 [a34 [a35 [a36 [a37 [a38 [a39 [a40 [a41 [a42 [a43 [a44 [a45 [a46 [a47 [a48 [a49 [a50 [a51 [a52 [a53 [a54 [a55 [a56 [a57 [a58 [a59 [a60 [a61 [a62 [a63 E]]]]]]]]]]]]]]]]]]]]]]]]]]]]]]]]]]]]]]]]]]]]]]]]]]]]]]]]]]]]]]]].
+  subst x. reflexivity.
+Qed.
+
+(* bytes <-> bits *)
+Lemma byte_bits_num : forall b7 b6 b5 b4 b3 b2 b1 b0,
+  byte_bits (bits_num [b7; b6; b5; b4; b3; b2; b1; b0] 0) = [b7; b6; b5; b4; b3; b2; b1; b0].
+Proof. intros. destruct b7, b6, b5, b4, b3, b2, b1, b0; reflexivity. Qed.
+
+Lemma bits_of_bytes_of_bits : forall n bits, length bits = 8 * n -> bits_of_bytes (bytes_of_bits n bits) = bits.
+Proof.
+  induction n as [|n IH]; intros bits H.
+  - destruct bits; [reflexivity|cbn in H; lia].
+  - replace (8 * S n) with (8 + 8 * n) in H by lia.
+    do 8 (destruct bits as [|? bits]; [cbn in H; lia|]).
+    cbn [bytes_of_bits firstn skipn]. unfold bits_of_bytes. cbn [flat_map]. rewrite byte_bits_num.
+    cbn [app]. do 8 f_equal. apply IH. cbn [length] in H. lia.
+Qed.
+
+Lemma bits_num_byte_bits_all : forallb (fun x => (bits_num (byte_bits x) 0 =? x)%N) (map N.of_nat (seq 0 256)) = true.
+Proof. vm_compute. reflexivity. Qed.
+Lemma bits_num_byte_bits : forall x, (x < 256)%N -> bits_num (byte_bits x) 0 = x.
+Proof.
+  intros x H. pose proof bits_num_byte_bits_all as A. rewrite forallb_forall in A.
+  apply N.eqb_eq. apply A. apply in_map_iff. exists (N.to_nat x). split; [apply N2Nat.id|].
+  apply in_seq. lia.
+Qed.
+
+Lemma bytes_of_bits_of_bytes : forall b, Forall (fun x => (x < 256)%N) b ->
+  bytes_of_bits (length b) (bits_of_bytes b) = b.
+Proof.
+  induction b as [|x b IH]; intro H; [reflexivity|]. inversion H; subst.
+  cbn [length bytes_of_bits]. unfold bits_of_bytes. cbn [flat_map].
+  change (byte_bits x ++ flat_map byte_bits b) with ([N.testbit x 7; N.testbit x 6; N.testbit x 5; N.testbit x 4; N.testbit x 3; N.testbit x 2; N.testbit x 1; N.testbit x 0] ++ bits_of_bytes b).
+  cbn [app firstn skipn]. f_equal; [apply (bits_num_byte_bits x); assumption|apply IH; assumption].
+Qed.
+
+Lemma bits_of_bytes_length : forall b, length (bits_of_bytes b) = 8 * length b.
+Proof. induction b; [reflexivity|]. unfold bits_of_bytes in *. cbn [flat_map length app]. rewrite app_length, IHb. cbn. lia. Qed.
+
+Lemma bytes_of_bits_length : forall n bits, length bits = 8 * n -> length (bytes_of_bits n bits) = n.
+Proof.
+  induction n as [|n IH]; intros bits H; [reflexivity|].
+  destruct bits as [|x bits]; [cbn in H; lia|]. cbn [bytes_of_bits length]. f_equal.
+  apply IH. rewrite skipn_length. lia.
+Qed.
+
+Theorem des_block_length : forall edf k b, length (des_block edf k b) = 8.
+Proof.
+  intros. unfold des_block. destruct (des_rounds _ _ _) as [l r].
+  apply bytes_of_bits_length. rewrite bperm_length. reflexivity.
+Qed.
+
+(* the 16 rounds on the permuted input block, pre-output = R16 L16 *)
+Definition des_core (ks : list (list bool)) (x : list bool) : list bool :=
+  let '(l, r) := des_rounds ks (firstn 32 x) (skipn 32 x) in r ++ l.
+
+Lemma des_block_core : forall e key b,
+  des_block e key b =
+    bytes_of_bits 8 (bperm des_FP (des_core (if e then rev (des_subkeys key) else des_subkeys key) (bperm des_IP (bits_of_bytes b)))).
+Proof. intros. unfold des_block, des_core. destruct (des_rounds _ _ _). reflexivity. Qed.
+
+Lemma des_core_length : forall ks x, length x = 64 -> length (des_core ks x) = 64.
+Proof.
+  intros ks x Hx. unfold des_core.
+  assert (Hl : length (firstn 32 x) = 32) by (rewrite firstn_length; lia).
+  assert (Hr : length (skipn 32 x) = 32) by (rewrite skipn_length; lia).
+  destruct (des_rounds_length ks _ _ Hl Hr) as [L1 L2].
+  destruct (des_rounds ks (firstn 32 x) (skipn 32 x)) as [l r]. cbn [fst snd] in L1, L2.
+  rewrite app_length. lia.
+Qed.
+
+Lemma des_core_inverse : forall ks x, length x = 64 -> des_core (rev ks) (des_core ks x) = x.
+Proof.
+  intros ks x Hx. unfold des_core at 2.
+  assert (Hl : length (firstn 32 x) = 32) by (rewrite firstn_length; lia).
+  assert (Hr : length (skipn 32 x) = 32) by (rewrite skipn_length; lia).
+  pose proof (des_rounds_inverse ks _ _ Hl Hr) as Inv.
+  destruct (des_rounds_length ks _ _ Hl Hr) as [L1 L2].
+  destruct (des_rounds ks (firstn 32 x) (skipn 32 x)) as [l r]. cbn [fst snd] in Inv, L1, L2.
+  unfold des_core.
+  rewrite firstn_app, skipn_app, L2, Nat.sub_diag, firstn_O, skipn_O.
+  rewrite (firstn_all2 r) by lia. rewrite (skipn_all2 r) by lia. rewrite app_nil_r. cbn [app].
+  rewrite Inv. apply firstn_skipn.
+Qed.
+
+(* FIPS 46-3: deciphering with K16..K1 recovers the block, and the other way round - for every key *)
+Lemma des_block_inv_gen : forall e key b, length b = 8 -> Forall (fun x => (x < 256)%N) b ->
+  des_block (negb e) key (des_block e key b) = b.
+Proof.
+  intros e key b Hb Hr. rewrite (des_block_core (negb e)). rewrite (des_block_core e).
+  set (ks := des_subkeys key).
+  set (ks1 := if e then rev ks else ks).
+  assert (Eks : (if negb e then rev ks else ks) = rev ks1) by (unfold ks1; destruct e; cbn [negb]; [rewrite rev_involutive|]; reflexivity).
+  rewrite Eks. clear Eks.
+  set (x := bperm des_IP (bits_of_bytes b)).
+  assert (Hx : length x = 64) by (unfold x; rewrite bperm_length; reflexivity).
+  pose proof (des_core_length ks1 x Hx) as Hc.
+  rewrite bits_of_bytes_of_bits by (rewrite bperm_length; reflexivity).
+  rewrite des_IP_FP by exact Hc.
+  rewrite des_core_inverse by exact Hx.
+  unfold x. rewrite des_FP_IP by (rewrite bits_of_bytes_length, Hb; reflexivity).
+  rewrite <- Hb at 1. apply bytes_of_bits_of_bytes. exact Hr.
+Qed.
+
+Theorem des_block_inverse : forall key b, length b = 8 -> Forall (fun x => (x < 256)%N) b ->
+  des_block true key (des_block false key b) = b /\ des_block false key (des_block true key b) = b.
+Proof. intros key b Hb Hr. split; [exact (des_block_inv_gen false key b Hb Hr)|exact (des_block_inv_gen true key b Hb Hr)]. Qed.
+
+(* ------------------------------------------------------------------ byte range bookkeeping *)
+Definition good (b : list N) : Prop := Forall (fun x => (x < 256)%N) b.
+
+Lemma bits_num_bound : forall l acc, (bits_num l acc < (acc + 1) * 2 ^ N.of_nat (length l))%N.
+Proof.
+  induction l as [|b l IH]; intro acc; cbn [bits_num length].
+  - cbn. lia.
+  - specialize (IH (2 * acc + b2n b)%N).
+    rewrite Nat2N.inj_succ, N.pow_succ_r'.
+    assert (b2n b <= 1)%N by (destruct b; cbn; lia).
+    set (p := (2 ^ N.of_nat (length l))%N) in *.
+    assert ((2 * acc + b2n b + 1) * p <= (acc + 1) * (2 * p))%N by nia. lia.
+Qed.
+
+Lemma bytes_of_bits_good : forall n bits, good (bytes_of_bits n bits).
+Proof.
+  induction n as [|n IH]; intro bits; cbn [bytes_of_bits]; [constructor|].
+  destruct bits as [|x bits]; [constructor|]. constructor; [|apply IH].
+  pose proof (bits_num_bound (firstn 8 (x :: bits)) 0) as B.
+  assert (L : length (firstn 8 (x :: bits)) <= 8) by (rewrite firstn_length; lia).
+  assert ((2 ^ N.of_nat (length (firstn 8 (x :: bits))) <= 2 ^ 8)%N) by (apply N.pow_le_mono_r; lia).
+  change (2 ^ 8)%N with 256%N in *. lia.
+Qed.
+
+Lemma des_block_good : forall e k b, good (des_block e k b).
+Proof. intros. rewrite des_block_core. apply bytes_of_bits_good. Qed.
+
+Lemma lxor_lt_256 : forall a b, (a < 256)%N -> (b < 256)%N -> (N.lxor a b < 256)%N.
+Proof.
+  intros a b Ha Hb. destruct (N.eq_dec (N.lxor a b) 0) as [E|E]; [rewrite E; lia|].
+  change 256%N with (2 ^ 8)%N. apply N.log2_lt_pow2; [lia|].
+  pose proof (N.log2_lxor a b) as L.
+  assert (La : (a = 0 \/ N.log2 a < 8)%N) by (destruct (N.eq_dec a 0); [left; assumption|right; apply N.log2_lt_pow2; [lia|exact Ha]]).
+  assert (Lb : (b = 0 \/ N.log2 b < 8)%N) by (destruct (N.eq_dec b 0); [left; assumption|right; apply N.log2_lt_pow2; [lia|exact Hb]]).
+  destruct La as [La|La], Lb as [Lb|Lb]; subst; cbn [N.log2] in *; lia.
+Qed.
+
+Lemma xor_lists_good : forall a b, good a -> good b -> good (xor_lists a b).
+Proof.
+  induction a as [|x a IH]; intros [|y b] Ha Hb; cbn [xor_lists]; try constructor.
+  - inversion Ha; inversion Hb; subst. apply lxor_lt_256; assumption.
+  - inversion Ha; inversion Hb; subst. apply IH; assumption.
+Qed.
+Lemma firstn_good : forall n b, good b -> good (firstn n b).
+Proof. induction n; intros b H; [constructor|]. destruct b; [constructor|]. inversion H; subst. cbn [firstn]. constructor; [assumption|apply IHn; assumption]. Qed.
+Lemma skipn_good : forall n b, good b -> good (skipn n b).
+Proof. induction n; intros b H; [exact H|]. destruct b; [constructor|]. inversion H; subst. cbn [skipn]. apply IHn; assumption. Qed.
+
+(* TDEA: deciphering recovers the block, for every key bundle *)
+Theorem des3_block_spec_inverse : forall key b, length b = 8 -> good b ->
+  des3_decrypt_block_spec key (des3_encrypt_block_spec key b) = b.
+Proof.
+  intros key b Hb Hg. unfold des3_decrypt_block_spec, des3_encrypt_block_spec, tdea_decrypt_spec, tdea_encrypt_spec.
+  destruct (des_block_inverse (firstn 8 (skipn 16 key)) (des_block true (firstn 8 (skipn 8 key)) (des_block false (firstn 8 key) b))
+              (des_block_length _ _ _) (des_block_good _ _ _)) as [I3 _]. rewrite I3.
+  destruct (des_block_inverse (firstn 8 (skipn 8 key)) (des_block false (firstn 8 key) b)
+              (des_block_length _ _ _) (des_block_good _ _ _)) as [_ I2]. rewrite I2.
+  destruct (des_block_inverse (firstn 8 key) b Hb Hg) as [I1 _]. exact I1.
+Qed.
+
+(* CBC inverse when D inverts E on well-formed byte blocks *)
+Section CbcNGood.
+  Variable bs : nat.
+  Variable E D : list N -> list N.
+  Hypothesis Elen : forall b, length (E b) = bs.
+  Hypothesis Egood : forall b, good (E b).
+  Hypothesis DEg : forall b, length b = bs -> good b -> D (E b) = b.
+
+  Theorem cbcn_inverse_good : forall n iv pt, length iv = bs -> length pt = bs * n -> good iv -> good pt ->
+    cbcn_decrypt_spec bs D n iv (cbcn_encrypt_spec bs E n iv pt) = pt.
+  Proof.
+    induction n as [|n IH]; intros iv pt Hiv Hpt Giv Gpt.
+    - destruct pt; [reflexivity|cbn in Hpt; lia].
+    - rewrite Nat.mul_succ_r in Hpt. cbn [cbcn_encrypt_spec cbcn_decrypt_spec].
+      set (c := E (xor_lists (firstn bs pt) iv)).
+      assert (Hc : length c = bs) by apply Elen.
+      rewrite firstn_app, skipn_app. rewrite Hc, Nat.sub_diag, firstn_O, skipn_O.
+      rewrite (firstn_all2 c) by lia. rewrite (skipn_all2 c) by lia. rewrite app_nil_r. cbn [app].
+      assert (Hx : length (xor_lists (firstn bs pt) iv) = bs)
+        by (rewrite xor_lists_length, firstn_length, Hiv; lia).
+      unfold c at 1. rewrite DEg; [|exact Hx|apply xor_lists_good; [apply firstn_good; exact Gpt|exact Giv]].
+      rewrite xor_lists_cancel by (rewrite firstn_length, Hiv; lia).
+      rewrite IH; [apply firstn_skipn|exact Hc|rewrite skipn_length; lia|apply Egood|apply skipn_good; exact Gpt].
+  Qed.
+End CbcNGood.
+
+(* ------------------------------------------------------------------ CBC depends on E / D only through whole blocks *)
+Lemma cbcn_encrypt_spec_ext : forall bs E1 E2, (forall b, length b = bs -> E1 b = E2 b) -> (forall b, length (E2 b) = bs) ->
+  forall n iv pt, length iv = bs -> length pt = bs * n ->
+  cbcn_encrypt_spec bs E1 n iv pt = cbcn_encrypt_spec bs E2 n iv pt.
+Proof.
+  intros bs E1 E2 HE Hl. induction n as [|n IH]; intros iv pt Hiv Hpt; [reflexivity|].
+  rewrite Nat.mul_succ_r in Hpt. cbn [cbcn_encrypt_spec].
+  assert (Hx : length (xor_lists (firstn bs pt) iv) = bs) by (rewrite xor_lists_length, firstn_length, Hiv; lia).
+  rewrite (HE _ Hx). f_equal. apply IH; [apply Hl|rewrite skipn_length; lia].
+Qed.
+Lemma cbcn_decrypt_spec_ext : forall bs D1 D2, (forall b, length b = bs -> D1 b = D2 b) ->
+  forall n iv ct, length ct = bs * n ->
+  cbcn_decrypt_spec bs D1 n iv ct = cbcn_decrypt_spec bs D2 n iv ct.
+Proof.
+  intros bs D1 D2 HD. induction n as [|n IH]; intros iv ct Hct; [reflexivity|].
+  rewrite Nat.mul_succ_r in Hct. cbn [cbcn_decrypt_spec].
+  rewrite (HD (firstn bs ct)) by (rewrite firstn_length; lia). f_equal.
+  apply IH. rewrite skipn_length. lia.
+Qed.
+
+(* ------------------------------------------------------------------ the concrete des3.c instance *)
+(* the one statement about des3.c that is NOT proved: deskey + cookey + desfunc (SP-box network, bit-trick
+   IP/FP) compute FIPS 46-3 DES.  It is checked by the NBS known answers (CryptoKAT.v) on the concrete
+   functions and by the differential run; everything else below is proved from it. *)
+Definition single_des_is_fips46 : Prop :=
+  forall k edf b, length b = 8 -> store_block (c_desfunc (c_deskey k edf) (load_block b)) = des_block edf k b.
+
+Theorem ps_des3_block_key_order : forall key b,
+  ps_des3_encrypt_block (ps_des3_init_key key) b =
+    store_block (tdea_encrypt_spec (stage_enc (list N) (N * N) c_deskey c_desfunc) (stage_dec (list N) (N * N) c_deskey c_desfunc)
+                   (firstn 8 key) (firstn 8 (skipn 8 key)) (firstn 8 (skipn 16 key)) (load_block b)) /\
+  ps_des3_decrypt_block (ps_des3_init_key key) b =
+    store_block (tdea_decrypt_spec (stage_enc (list N) (N * N) c_deskey c_desfunc) (stage_dec (list N) (N * N) c_deskey c_desfunc)
+                   (firstn 8 key) (firstn 8 (skipn 8 key)) (firstn 8 (skipn 16 key)) (load_block b)).
+Proof. intros. apply des3_block_key_order. Qed.
+
+Theorem ps_des3_block_eq_spec : single_des_is_fips46 -> forall key b, length b = 8 ->
+  ps_des3_encrypt_block (ps_des3_init_key key) b = des3_encrypt_block_spec key b /\
+  ps_des3_decrypt_block (ps_des3_init_key key) b = des3_decrypt_block_spec key b.
+Proof.
+  intros H key b Hb.
+  exact (des3_block_eq_spec (list N) (N * N) c_deskey c_desfunc load_block store_block [] des_block H c_desfunc_wf des_block_length key b Hb).
+Qed.
+
+Lemma ps_des3_block_len : forall k b, length (ps_des3_encrypt_block k b) = 8 /\ length (ps_des3_decrypt_block k b) = 8.
+Proof. intros. split; reflexivity. Qed.
+Lemma des3_block_spec_len : forall key b, length (des3_encrypt_block_spec key b) = 8 /\ length (des3_decrypt_block_spec key b) = 8.
+Proof. intros. split; apply des_block_length. Qed.
+
+Lemma forall_mod8_len : forall chunks : list (list N), Forall (fun c => length c mod 8 = 0) chunks ->
+  length (concat chunks) = 8 * (length (concat chunks) / 8).
+Proof. intros chunks H. apply (divbs_exact 8); [lia|]. apply concat_mod; [lia|exact H]. Qed.
+
+(* psDes3Init; psDes3Encrypt* (any cut into calls, in place or not) = TDEA-CBC of SP 800-67 / SP 800-38A *)
+Theorem ps_des3_encrypt_eq_spec : single_des_is_fips46 -> forall key ip iv chunks,
+  length iv = 8 -> Forall (fun c => length c mod 8 = 0) chunks ->
+  fst (ps_des3_encrypt_calls key ip iv chunks) = des3_cbc_encrypt_spec key iv (concat chunks).
+Proof.
+  intros H key ip iv chunks Hiv Hall. unfold ps_des3_encrypt_calls, des3_cbc_encrypt_spec.
+  rewrite (firstn_all2 iv) by lia.
+  rewrite (cbcn_encrypt_calls_spec 8 _ ltac:(lia) (fun b => proj1 (ps_des3_block_len _ b))) by exact Hall. cbn [fst].
+  apply cbcn_encrypt_spec_ext; [|intro b; apply (proj1 (des3_block_spec_len key b))|exact Hiv|apply forall_mod8_len; exact Hall].
+  intros b Hb. apply (proj1 (ps_des3_block_eq_spec H key b Hb)).
+Qed.
+
+Theorem ps_des3_decrypt_eq_spec : single_des_is_fips46 -> forall key ip iv chunks,
+  length iv = 8 -> Forall (fun c => length c mod 8 = 0) chunks ->
+  fst (ps_des3_decrypt_calls key ip iv chunks) = des3_cbc_decrypt_spec key iv (concat chunks).
+Proof.
+  intros H key ip iv chunks Hiv Hall. unfold ps_des3_decrypt_calls, des3_cbc_decrypt_spec.
+  rewrite (firstn_all2 iv) by lia.
+  rewrite (cbcn_decrypt_calls_spec 8 _ ltac:(lia) (fun b => proj2 (ps_des3_block_len _ b))) by assumption. cbn [fst].
+  apply cbcn_decrypt_spec_ext; [|apply forall_mod8_len; exact Hall].
+  intros b Hb. apply (proj2 (ps_des3_block_eq_spec H key b Hb)).
+Qed.
+
+(* SP 800-67 + SP 800-38A: TDEA-CBC deciphering recovers the plaintext - every key bundle, IV, whole blocks *)
+Theorem des3_cbc_spec_inverse : forall key iv pt, length iv = 8 -> length pt mod 8 = 0 -> good iv -> good pt ->
+  des3_cbc_decrypt_spec key iv (des3_cbc_encrypt_spec key iv pt) = pt.
+Proof.
+  intros key iv pt Hiv Hpt Giv Gpt. unfold des3_cbc_decrypt_spec, des3_cbc_encrypt_spec.
+  pose proof (divbs_exact 8 ltac:(lia) _ Hpt) as En. set (n := length pt / 8) in *.
+  rewrite (cbcn_encrypt_spec_len 8 _ ltac:(lia) (fun b => proj1 (des3_block_spec_len key b))).
+  replace (8 * n / 8) with n by (rewrite Nat.mul_comm, Nat.div_mul; lia).
+  apply (cbcn_inverse_good 8 _ _ (fun b => proj1 (des3_block_spec_len key b))); try assumption.
+  - intro b. apply des_block_good.
+  - intros b Hb Hg. apply des3_block_spec_inverse; assumption.
+Qed.
+
+(* the model: psDes3Decrypt (any calls) of psDes3Encrypt (any calls) returns the plaintext *)
+Theorem ps_des3_roundtrip : single_des_is_fips46 -> forall key ip1 ip2 iv chunks chunks2,
+  length iv = 8 -> good iv -> good (concat chunks) ->
+  Forall (fun c => length c mod 8 = 0) chunks -> Forall (fun c => length c mod 8 = 0) chunks2 ->
+  concat chunks2 = fst (ps_des3_encrypt_calls key ip1 iv chunks) ->
+  fst (ps_des3_decrypt_calls key ip2 iv chunks2) = concat chunks.
+Proof.
+  intros H key ip1 ip2 iv chunks chunks2 Hiv Giv Gpt Hall Hall2 Hcat.
+  rewrite (ps_des3_decrypt_eq_spec H) by assumption. rewrite Hcat.
+  rewrite (ps_des3_encrypt_eq_spec H) by assumption.
+  apply des3_cbc_spec_inverse; try assumption. apply concat_mod; [lia|exact Hall].
+Qed.
+
+(* no hypothesis: however whole blocks are cut into psDes3Encrypt / psDes3Decrypt calls, in place or not, the
+   output is CBC (SP 800-38A) of the concatenation over the model's own block functions, the IV being carried
+   from call to call *)
+Theorem ps_des3_calls : forall key ip iv chunks,
+  8 <= length iv -> Forall (fun c => length c mod 8 = 0) chunks ->
+  fst (ps_des3_encrypt_calls key ip iv chunks) =
+    cbcn_encrypt_spec 8 (ps_des3_encrypt_block (ps_des3_init_key key)) (length (concat chunks) / 8) (firstn 8 iv) (concat chunks) /\
+  fst (ps_des3_decrypt_calls key ip iv chunks) =
+    cbcn_decrypt_spec 8 (ps_des3_decrypt_block (ps_des3_init_key key)) (length (concat chunks) / 8) (firstn 8 iv) (concat chunks).
+Proof.
+  intros key ip iv chunks Hiv Hall. unfold ps_des3_encrypt_calls, ps_des3_decrypt_calls. split.
+  - rewrite (cbcn_encrypt_calls_spec 8 _ ltac:(lia) (fun b => proj1 (ps_des3_block_len _ b))) by exact Hall. reflexivity.
+  - rewrite (cbcn_decrypt_calls_spec 8 _ ltac:(lia) (fun b => proj2 (ps_des3_block_len _ b))); [reflexivity| |exact Hall].
+    rewrite firstn_length. lia.
+Qed.
